@@ -104,6 +104,20 @@ def payloads(rng, tier):
         hi = rng.choice([x for x in grid if x >= lo] + [lo, round(lo + (1 - lo) * rng.random(), 3)])
         yield "thresholds", {"lo": lo, "hi": hi, "k": rng.randint(1, 40)}
     yield "thresholds", {"lo": 0.8, "hi": 1.0, "k": 5}
+    # systematic boundary strings: for every (lo, k) of the grid, strings of length k-1, k, k+1 and 2k whose G+C count sits at
+    # and next to the lower / upper bound (where the window rule and the short-string rule may round differently)
+    import math
+    for k in range(1, {"quick": 12, "thorough": 24, "search": 6}[tier] + 1):
+        for lo in grid:
+            hi = rng.choice([x for x in grid if x >= lo])
+            for g in sorted(set([math.ceil(lo * k), math.ceil(lo * k) - 1, math.floor(hi * k), math.floor(hi * k) + 1])):
+                if 0 <= g <= k:
+                    w = list("G" * g + "A" * (k - g))
+                    rng.shuffle(w)
+                    w = "".join(rng.choice("GC") if c == "G" else rng.choice("AT") for c in w)
+                    for st in (w, w[:-1], w + rng.choice(NUC), w + w):
+                        yield "valid", {"cfg": {"k": k, "run": None, "gc": [lo, hi], "motifs": None}, "s": st,
+                                        "only_last": rng.random() < 0.5}
     for _ in range(n // 10):
         k = rng.randint(1, 6)
         yield "ctor", {"k": k, "run": rng.choice([None, k - 1, k, k + 1, 0]),
